@@ -461,7 +461,6 @@ def handle(req):
         return {"results": out}
     if op == "gates_raw":
         # the miner's raw tree (below the start event) and what the repository's post-processing makes of it
-        from copy import deepcopy
         from tel2puml.events import EventSet
         from tel2puml.logic_detection import (calculate_process_tree_from_event_sets,
                                               reduce_process_tree_to_preferred_logic_gates,
